@@ -8,6 +8,8 @@ import CalVerif.Spec.OdsRange
     `getrangeU <cells> <cols> <rowsRepeats>`  → the same for the code before the D19 fix
     `collect <runs>`                          → `<cells> <cols> <rowsRepeats>` as `read_table` accumulates them
     `case <runs>`                             → `<model range dump>|<spec dump>` (spec = bbox + values of `expand`)
+    `casevf <vfruns>`                         → `<model values>|<spec values>|<model formulas>|<spec formulas>`
+                                                 (cell events `v,f*k` carry a value id and a formula id)
     runs: rows separated by `/`, a row is `rep:v*k;v*k;…` (`rep:` = a row without cells), `-` = no rows
     range dump: `S=r,c E=r,c N=<len> C=<cells>`; more than 4096 cells: `C=#<fnv64 of the cell text>` -/
 
@@ -47,6 +49,25 @@ def parseRow (s : String) : Option (RowRun Nat) :=
     some (rep, evs)
   | _ => none
 
+def parseEvVF (s : String) : Option ((Nat × Nat) × Nat) :=
+  match s.splitOn "*" with
+  | [vf, k] =>
+    match vf.splitOn "," with
+    | [v, f] => do some (((← v.toNat?), (← f.toNat?)), (← k.toNat?))
+    | _ => none
+  | _ => none
+
+def parseRowVF (s : String) : Option (RowRunVF Nat Nat) :=
+  match s.splitOn ":" with
+  | [rep, evs] => do
+    let rep ← rep.toNat?
+    let evs ← if evs = "" then some [] else (evs.splitOn ";").mapM parseEvVF
+    some (rep, evs)
+  | _ => none
+
+def parseRunsVF (s : String) : Option (List (RowRunVF Nat Nat)) :=
+  if s = "-" then some [] else (s.splitOn "/").mapM parseRowVF
+
 def parseRuns (s : String) : Option (List (RowRun Nat)) :=
   if s = "-" then some [] else (s.splitOn "/").mapM parseRow
 
@@ -75,6 +96,13 @@ def handle (line : String) : String :=
   | ["case", rs] =>
     match parseRuns rs with
     | some runs => s!"{dumpRes (getRange (collect runs))}|{specDump runs}"
+    | none => "bad-op"
+  | ["casevf", rs] =>
+    match parseRunsVF rs with
+    | some runs =>
+      let sv := specDump (runsOf (fun e : Nat × Nat => e.1) runs)
+      let sf := specDump (runsOf (fun e : Nat × Nat => e.2) runs)
+      s!"{dumpRes (getRange (collectV runs))}|{sv}|{dumpRes (getRange (collectF runs))}|{sf}"
     | none => "bad-op"
   | _ => "bad-op"
 
